@@ -1110,17 +1110,712 @@ Proof.
 Qed.
 
 (* ====================================================================== *)
+(* H. key-blindness: the construct keys of the other field play no part     *)
+(* ====================================================================== *)
+Definition omap {S T} (f : S -> T) (r : result (option S)) : result (option T) :=
+  match r with Ok (Some s) => Ok (Some (f s)) | Ok None => Ok None | Err e => Err e end.
+
+Lemma find_remove_map {B C} (f : B -> C) (p : C -> result bool) l :
+  find_remove p (map f l)
+  = omap (fun yr : B * list B => (f (fst yr), map f (snd yr))) (find_remove (fun b => p (f b)) l).
+Proof.
+  induction l as [|y r IH]; simpl; auto.
+  destruct (p (f y)) as [[|]|e]; simpl; auto.
+  rewrite IH. destruct (find_remove (fun b => p (f b)) r) as [[[z r']|]|e]; reflexivity.
+Qed.
+
+Lemma greedyR_map_r {A B C} (f : B -> C) (eq : A -> C -> result bool) xs : forall ys,
+  greedyR eq xs (map f ys)
+  = omap (map (fun p : A * B => (fst p, f (snd p)))) (greedyR (fun a b => eq a (f b)) xs ys).
+Proof.
+  induction xs as [|x xs IH]; intro ys; simpl.
+  - destruct ys; reflexivity.
+  - rewrite find_remove_map.
+    destruct (find_remove (fun b => eq x (f b)) ys) as [[[y ys']|]|e]; simpl; auto.
+    rewrite IH. destruct (greedyR (fun a b => eq a (f b)) xs ys') as [[ps|]|e]; reflexivity.
+Qed.
+
+Lemma find_remove_incl {B} (p : B -> result bool) l : forall y r,
+  find_remove p l = Ok (Some (y, r)) -> incl r l.
+Proof.
+  induction l as [|z l IH]; simpl; intros y r; [discriminate|].
+  destruct (p z) as [[|]|e]; try discriminate.
+  - intro H; inversion H; subst. apply incl_tl, incl_refl.
+  - destruct (find_remove p l) as [[[y' r']|]|e]; try discriminate. intro H; inversion H; subst.
+    intros w [Hw|Hw]; [now left|right; eapply IH; eauto].
+Qed.
+
+Lemma find_remove_ext_in {B} (p q : B -> result bool) l :
+  (forall b, In b l -> p b = q b) -> find_remove p l = find_remove q l.
+Proof.
+  induction l as [|z l IH]; simpl; intro H; auto.
+  rewrite <- (H z) by now left. rewrite IH by (intros; apply H; now right). reflexivity.
+Qed.
+
+Lemma greedyR_ext_in {A B} (eq eq' : A -> B -> result bool) xs : forall ys,
+  (forall a b, In b ys -> eq a b = eq' a b) -> greedyR eq xs ys = greedyR eq' xs ys.
+Proof.
+  induction xs as [|x xs IH]; intros ys H; simpl; auto.
+  rewrite (find_remove_ext_in (eq x) (eq' x) ys) by (intros; now apply H).
+  destruct (find_remove (eq' x) ys) as [[[y ys']|]|e] eqn:E; auto.
+  rewrite (IH ys'); auto. intros a b Hb. apply H. eapply find_remove_incl; eauto.
+Qed.
+
+Definition inj (f : string -> string) : Prop := forall a b, f a = f b -> a = b.
+
+Lemma eqb_inj f : inj f -> forall a b, String.eqb (f a) (f b) = String.eqb a b.
+Proof.
+  intros I a b. destruct (String.eqb_spec a b) as [->|N].
+  - apply String.eqb_refl.
+  - apply String.eqb_neq. intro E. apply N, I, E.
+Qed.
+
+(* renaming the keys (first components) / the values (second components) of an association list *)
+Definition ren1 {V} (f : string -> string) (m : list (string * V)) : list (string * V) :=
+  map (fun p => (f (fst p), snd p)) m.
+Definition ren2 {K} (f : string -> string) (m : list (K * string)) : list (K * string) :=
+  map (fun p => (fst p, f (snd p))) m.
+
+Lemma assoc_ren1 {V} f (I : inj f) k (m : list (string * V)) : assoc (f k) (ren1 f m) = assoc k m.
+Proof.
+  induction m as [|[k' v] r IH]; simpl; auto. rewrite (eqb_inj f I). destruct (String.eqb k k'); auto.
+Qed.
+
+Lemma assoc_ren2 f k (m : amap) : assoc k (ren2 f m) = option_map f (assoc k m).
+Proof. induction m as [|[k' v] r IH]; simpl; auto. destruct (String.eqb k k'); auto. Qed.
+
+Lemma keys_ren1 {V} f (m : list (string * V)) : keys (ren1 f m) = map f (keys m).
+Proof. unfold keys, ren1. rewrite !map_map. reflexivity. Qed.
+
+Lemma keys_ren2 f (m : amap) : keys (ren2 f m) = keys m.
+Proof. unfold keys, ren2. rewrite map_map. reflexivity. Qed.
+
+Lemma mem_map_inj f (I : inj f) a l : mem (f a) (map f l) = mem a l.
+Proof. unfold mem. induction l as [|x r IH]; simpl; auto. now rewrite (eqb_inj f I), IH. Qed.
+
+Lemma ren2_cons {K} f (a : K) b r : ren2 f ((a, b) :: r) = (a, f b) :: ren2 f r.
+Proof. reflexivity. Qed.
+
+Lemma forallb_ext_in {A} (f g : A -> bool) l : (forall a, In a l -> f a = g a) -> forallb f l = forallb g l.
+Proof.
+  induction l as [|x r IH]; simpl; intro H; auto. rewrite (H x) by now left.
+  rewrite IH by (intros; apply H; now right). reflexivity.
+Qed.
+
+Lemma dict_eq_map_r {A} (veq veq' : A -> A -> bool) (f : A -> A) p q :
+  (forall u w, veq u (f w) = veq' u w) ->
+  dict_eq veq p (map (fun tk : string * A => (fst tk, f (snd tk))) q) = dict_eq veq' p q.
+Proof.
+  intro H. unfold dict_eq, same_keys.
+  assert (K : keys (map (fun tk : string * A => (fst tk, f (snd tk))) q) = keys q)
+    by (unfold keys; rewrite map_map; reflexivity).
+  rewrite K. f_equal. apply forallb_ext_in. intros [k v] _. simpl.
+  assert (E : assoc k (map (fun tk : string * A => (fst tk, f (snd tk))) q) = option_map f (assoc k q)).
+  { clear. induction q as [|[k' v'] r IH]; simpl; auto. destruct (String.eqb k k'); auto. }
+  rewrite E. destruct (assoc k q); simpl; auto.
+Qed.
+
+Section Rename.
+  (* ra renames domain axis keys, rk the keys of constructs with data, ro the keys of cell
+     methods and coordinate references *)
+  Variables ra rk ro : string -> string.
+  Hypothesis ra_inj : inj ra.
+  Hypothesis rk_inj : inj rk.
+
+  Definition ren_item (kc : string * cons) : string * cons := (rk (fst kc), snd kc).
+  Definition ren_group (g : group) : group := (map ra (fst g), map ren_item (snd g)).
+  Definition ren_kcons (kc : kcons) : kcons := (rk (fst kc), (map ra (fst (snd kc)), snd (snd kc))).
+  Definition ren_cm (c : cmeth) : cmeth := mkM (map ra (m_axes c)) (m_method c) (m_quals c) (m_intervals c).
+  Definition ren_cr (c : cref) : cref :=
+    mkR (map rk (r_coords c)) (r_cparams c)
+        (map (fun tk : string * option string => (fst tk, option_map rk (snd tk))) (r_cdas c)) (r_dparams c).
+  Definition ren_cms (l : list (string * cmeth)) := map (fun kc => (ro (fst kc), ren_cm (snd kc))) l.
+  Definition ren_crs (l : list (string * cref)) := map (fun kr => (ro (fst kr), ren_cr (snd kr))) l.
+  Definition ren_field (y : field) : field :=
+    mkF (f_isfield y) (f_props y) (f_data y) (option_map (map ra) (f_daxes y))
+        (ren1 ra (f_axes y)) (map ren_kcons (f_cons y)) (ren_cms (f_cms y)) (ren_crs (f_crs y)).
+
+  Lemma axes_eqb_ra l : forall l', axes_eqb (map ra l) (map ra l') = axes_eqb l l'.
+  Proof.
+    unfold axes_eqb. induction l as [|x r IH]; intros [|y r']; simpl; auto.
+    now rewrite (eqb_inj ra ra_inj), IH.
+  Qed.
+
+  Lemma add_group_ren k ax c gs :
+    add_group (rk k) (map ra ax) c (map ren_group gs) = map ren_group (add_group k ax c gs).
+  Proof.
+    induction gs as [|[ax' items] r IH]; simpl; auto.
+    rewrite axes_eqb_ra. destruct (axes_eqb ax ax'); simpl.
+    - unfold ren_group at 2. simpl. now rewrite map_app.
+    - now rewrite IH.
+  Qed.
+
+  Lemma groups_ren_gen cs : forall gs,
+    fold_left (fun gs kc => add_group (fst kc) (fst (snd kc)) (snd (snd kc)) gs)
+              (map ren_kcons cs) (map ren_group gs)
+    = map ren_group (fold_left (fun gs (kc : kcons) => add_group (fst kc) (fst (snd kc)) (snd (snd kc)) gs) cs gs).
+  Proof.
+    induction cs as [|kc r IH]; intro gs; cbn [map fold_left ren_kcons fst snd]; auto.
+    rewrite add_group_ren. apply IH.
+  Qed.
+
+  Lemma groups_ren cs : groups (map ren_kcons cs) = map ren_group (groups cs).
+  Proof. exact (groups_ren_gen cs []). Qed.
+
+  Definition ren_ps (ps : kpairs) : kpairs := ren2 rk ps.
+
+  Lemma role_ren t i : role t (map ren_item i) = map ren_item (role t i).
+  Proof.
+    unfold role. induction i as [|kc r IH]; simpl; auto.
+    destruct (cls_eqb (c_cls (snd kc)) t); simpl; now rewrite IH.
+  Qed.
+
+  Lemma match_types_ren o other other' tys i0 i1 :
+    match_types New o other' tys i0 (map ren_item i1) = omap ren_ps (match_types New o other tys i0 i1).
+  Proof.
+    induction tys as [|t rest IH]; simpl; auto.
+    rewrite role_ren, map_length.
+    destruct (negb (Nat.eqb (length (role t i0)) (length (role t i1)))); auto.
+    rewrite greedyR_map_r.
+    rewrite (greedyR_ext_in _ (fun a b : string * cons => cons_body_eq New o (snd a) (snd b)))
+      by (intros; reflexivity).
+    destruct (greedyR (fun a b : string * cons => cons_body_eq New o (snd a) (snd b)) (role t i0) (role t i1))
+      as [[ps|]|e]; simpl; auto.
+    rewrite IH. destruct (match_types New o other rest i0 i1) as [[qs|]|e]; simpl; auto.
+    unfold ren_ps, ren2. rewrite map_app, !map_map. reflexivity.
+  Qed.
+
+  Definition ren_fg (t : group * list group * kpairs) : group * list group * kpairs :=
+    (ren_group (fst (fst t)), map ren_group (snd (fst t)), ren_ps (snd t)).
+
+  Lemma find_group_ren o other other' g0 gs1 :
+    find_group New o other' g0 (map ren_group gs1) = omap ren_fg (find_group New o other g0 gs1).
+  Proof.
+    induction gs1 as [|g1 r IH]; cbn [map find_group]; auto.
+    rewrite IH. unfold ren_group at 1 2 3. cbn [fst snd]. rewrite map_length, (match_types_ren o other other').
+    destruct (negb (Nat.eqb (length (fst g0)) (length (fst g1)))).
+    - destruct (find_group New o other g0 r) as [[[[g r'] ps]|]|e]; reflexivity.
+    - destruct (match_types New o other type_order (snd g0) (snd g1)) as [[ps|]|e]; cbn [omap]; auto.
+      destruct (find_group New o other g0 r) as [[[[g r'] ps]|]|e]; reflexivity.
+  Qed.
+
+  Definition ren_aps (aps : axpairs) : axpairs := map (fun p => (fst p, map ra (snd p))) aps.
+  Definition ren_mg (t : axpairs * kpairs) : axpairs * kpairs := (ren_aps (fst t), ren_ps (snd t)).
+
+  Lemma match_groups_ren o other other' gs0 : forall gs1,
+    match_groups New o other' gs0 (map ren_group gs1) = omap ren_mg (match_groups New o other gs0 gs1).
+  Proof.
+    induction gs0 as [|g0 r0 IH]; intro gs1; cbn [match_groups]; auto.
+    rewrite (find_group_ren o other other').
+    destruct (find_group New o other g0 gs1) as [[[[g1 gs1'] ps]|]|e]; cbn [omap ren_fg fst snd]; auto.
+    rewrite IH. destruct (match_groups New o other r0 gs1') as [[[aps qs]|]|e]; cbn [omap]; auto.
+    unfold ren_mg, ren_aps, ren_ps, ren2; cbn [fst snd map ren_group]. now rewrite map_app.
+  Qed.
+
+  Definition ren_maps (t : amap * amap) : amap * amap := (ren2 ra (fst t), ren1 ra (snd t)).
+
+  Lemma map_axes_ren z : forall m01 m10,
+    map_axes New (ren2 ra m01) (ren1 ra m10) (ren2 ra z) = omap ren_maps (map_axes New m01 m10 z).
+  Proof.
+    induction z as [|[a0 a1] r IH]; intros m01 m10; [reflexivity|].
+    rewrite ren2_cons. cbn [map_axes fixD New].
+    rewrite assoc_ren2, (assoc_ren1 ra ra_inj), keys_ren2, keys_ren1, (mem_map_inj ra ra_inj).
+    assert (C1 : match option_map ra (assoc a0 m01) with Some b => negb (String.eqb (ra a1) b) | None => false end
+                 = match assoc a0 m01 with Some b => negb (String.eqb a1 b) | None => false end).
+    { destruct (assoc a0 m01); simpl; auto. now rewrite (eqb_inj ra ra_inj). }
+    rewrite C1.
+    destruct (match assoc a0 m01 with Some b => negb (String.eqb a1 b) | None => false end); auto.
+    destruct (match assoc a1 m10 with Some b0 => negb (String.eqb a0 b0) | None => false end); auto.
+    rewrite <- IH.
+    destruct (mem a0 (keys m01)), (mem a1 (keys m10)); f_equal; unfold ren1, ren2; rewrite ?map_app; reflexivity.
+  Qed.
+
+  Lemma zip_ren (ax0 : list string) : forall ax1, zip ax0 (map ra ax1) = ren2 ra (zip ax0 ax1).
+  Proof. induction ax0 as [|x r IH]; intros [|y r']; simpl; auto. now rewrite IH. Qed.
+
+  Lemma map_all_axes_ren aps : forall m01 m10,
+    map_all_axes New (ren2 ra m01) (ren1 ra m10) (ren_aps aps) = omap ren_maps (map_all_axes New m01 m10 aps).
+  Proof.
+    induction aps as [|[ax0 ax1] r IH]; intros m01 m10; cbn [ren_aps map map_all_axes fst snd]; auto.
+    rewrite zip_ren, map_axes_ren.
+    destruct (map_axes New m01 m10 (zip ax0 ax1)) as [[[n01 n10]|]|e]; cbn [omap ren_maps fst snd]; auto.
+  Qed.
+
+  Definition ren_scan (s : scan) : scan :=
+    match s with SFalse => SFalse | SDone l idx a m => SDone (map ra l) idx (ren2 ra a) (ren1 ra m) end.
+
+  Lemma remove1_ren a l : remove1 (ra a) (map ra l) = map ra (remove1 a l).
+  Proof.
+    induction l as [|x r IH]; simpl; auto. rewrite (eqb_inj ra ra_inj).
+    destruct (String.eqb a x); simpl; auto. now rewrite IH.
+  Qed.
+
+  Lemma index_of_ren a l : index_of (ra a) (map ra l) = index_of a l.
+  Proof.
+    induction l as [|x r IH]; simpl; auto. rewrite (eqb_inj ra ra_inj).
+    destruct (String.eqb a x); auto.
+  Qed.
+
+  Lemma axsize_ren ax k : axsize (ren1 ra ax) (ra k) = axsize ax k.
+  Proof. unfold axsize. now rewrite (assoc_ren1 ra ra_inj). Qed.
+
+  (* standard names (cell method axes that are not domain axis keys of the field) are fixed *)
+  Lemma scan_axes1_ren ax0 ax1 S orig axis0 fuel :
+    (forall x, In x S -> mem x (keys ax1) = false -> ra x = x) ->
+    forall a m i axes1 indices, incl axes1 S ->
+    scan_axes1 New ax0 (ren1 ra ax1) (ren2 ra a) (ren1 ra m) (map ra orig) axis0 fuel i (map ra axes1) indices
+    = ren_scan (scan_axes1 New ax0 ax1 a m orig axis0 fuel i axes1 indices).
+  Proof.
+    intros Hfix. induction fuel as [|fuel IH]; intros a m i axes1 indices I; cbn [scan_axes1]; auto.
+    rewrite nth_error_map. destruct (nth_error axes1 i) as [axis1|] eqn:N; cbn [option_map]; auto.
+    assert (In1 : In axis1 S) by (apply I; eapply nth_error_In; eauto).
+    assert (I' : incl (remove1 axis1 axes1) S) by (intros z Hz; apply I; eapply remove1_incl; eauto).
+    rewrite keys_ren2, !keys_ren1, !(mem_map_inj ra ra_inj), assoc_ren2, axsize_ren, remove1_ren, index_of_ren.
+    destruct (mem axis0 (keys a)) eqn:M0, (mem axis1 (keys m)) eqn:M1; cbn [andb orb]; try reflexivity.
+    - destruct (assoc axis0 a) as [b|]; cbn [option_map option_eqb].
+      + rewrite (eqb_inj ra ra_inj). destruct (String.eqb axis1 b); [reflexivity|]. now apply IH.
+      + now apply IH.
+    - cbn [fixU New]. destruct (mem axis0 (keys ax0)) eqn:K0, (mem axis1 (keys ax1)) eqn:K1; cbn [andb orb].
+      + destruct (Z.eqb (axsize ax0 axis0) (axsize ax1 axis1)); [|now apply IH].
+        cbn [ren_scan]. unfold ren1, ren2; rewrite !map_app. reflexivity.
+      + now apply IH.
+      + now apply IH.
+      + rewrite (Hfix axis1 In1 K1). destruct (String.eqb axis0 axis1); cbn [fixG New]; [reflexivity|now apply IH].
+  Qed.
+
+  Definition ren_s0 (t : list nat * amap * amap) : list nat * amap * amap :=
+    (fst (fst t), ren2 ra (snd (fst t)), ren1 ra (snd t)).
+
+  Lemma scan_axes0_ren ax0 ax1 orig axes0 :
+    (forall x, In x orig -> mem x (keys ax1) = false -> ra x = x) ->
+    forall a m axes1 indices, incl axes1 orig -> idx_ok orig indices ->
+    scan_axes0 New ax0 (ren1 ra ax1) (ren2 ra a) (ren1 ra m) (map ra orig) axes0 (map ra axes1) indices
+    = option_map ren_s0 (scan_axes0 New ax0 ax1 a m orig axes0 axes1 indices).
+  Proof.
+    intro Hfix. induction axes0 as [|axis0 r IH]; intros a m axes1 indices I X; cbn [scan_axes0]; auto.
+    rewrite map_length, (scan_axes1_ren ax0 ax1 orig orig axis0 _ Hfix a m 0%nat axes1 indices I).
+    destruct (scan_axes1 New ax0 ax1 a m orig axis0 (S (length axes1)) 0 axes1 indices)
+      as [|axes1' indices' a' m'] eqn:E; cbn [ren_scan]; auto.
+    destruct (scan_axes1_inv _ _ _ _ _ _ _ _ _ _ _ _ _ _ _ E I X) as [I2 X2]. now apply IH.
+  Qed.
+
+  Lemma sorted_intervals_ren c idx : sorted_intervals New (ren_cm c) idx = sorted_intervals New c idx.
+  Proof. unfold sorted_intervals, ren_cm. cbn [m_axes m_intervals]. now rewrite map_length. Qed.
+
+  Lemma one_cm_eq_ren o ax0 ax1 a m c0 c1 :
+    (forall x, In x (m_axes c1) -> mem x (keys ax1) = false -> ra x = x) ->
+    one_cm_eq New o ax0 (ren1 ra ax1) (ren2 ra a) (ren1 ra m) c0 (ren_cm c1)
+    = omap ren_maps (one_cm_eq New o ax0 ax1 a m c0 c1).
+  Proof.
+    intro Hfix. unfold one_cm_eq.
+    change (m_axes (ren_cm c1)) with (map ra (m_axes c1)).
+    change (m_method (ren_cm c1)) with (m_method c1). change (m_quals (ren_cm c1)) with (m_quals c1).
+    rewrite map_length.
+    destruct (negb (Nat.eqb (length (m_axes c0)) (length (m_axes c1)))); auto.
+    rewrite (scan_axes0_ren ax0 ax1 (m_axes c1) (m_axes c0) Hfix a m (m_axes c1) []);
+      [|apply incl_refl|constructor].
+    destruct (scan_axes0 New ax0 ax1 a m (m_axes c1) (m_axes c0) (m_axes c1) []) as [[[indices a'] m']|];
+      cbn [option_map ren_s0 fst snd]; auto.
+    destruct (negb (Nat.eqb (length (m_axes c1)) (length indices))); auto.
+    rewrite sorted_intervals_ren.
+    destruct (sorted_intervals New c1 indices) as [iv|e]; cbn [rbind omap]; auto.
+    destruct (cm_eq o c0 (mkM (m_axes c0) (m_method c1) (m_quals c1) iv)); reflexivity.
+  Qed.
+
+  Lemma cms_zip_eq_ren o ax0 ax1 l0 : forall l1 a m,
+    (forall kc x, In kc l1 -> In x (m_axes (snd kc)) -> mem x (keys ax1) = false -> ra x = x) ->
+    cms_zip_eq New o ax0 (ren1 ra ax1) (ren2 ra a) (ren1 ra m) l0 (ren_cms l1)
+    = cms_zip_eq New o ax0 ax1 a m l0 l1.
+  Proof.
+    induction l0 as [|[k0 c0] r0 IH]; intros l1 a m Hfix; cbn [cms_zip_eq]; auto.
+    destruct l1 as [|[k1 c1] r1]; cbn [ren_cms map cms_zip_eq fst snd]; auto.
+    rewrite one_cm_eq_ren by (intros x Hx; apply (Hfix (k1, c1)); [now left|exact Hx]).
+    destruct (one_cm_eq New o ax0 ax1 a m c0 c1) as [[[a' m']|]|e]; cbn [omap ren_maps fst snd]; auto.
+    apply IH. intros kc x Hk. apply Hfix. now right.
+  Qed.
+
+  Lemma swap_ren1 (m : amap) : map swap (ren1 ra m) = ren2 ra (map swap m).
+  Proof. unfold ren1, ren2. rewrite !map_map. reflexivity. Qed.
+
+  Lemma cms_eq_ren o ax0 ax1 m l0 l1 :
+    (forall kc x, In kc l1 -> In x (m_axes (snd kc)) -> mem x (keys ax1) = false -> ra x = x) ->
+    cms_eq New o ax0 (ren1 ra ax1) (ren1 ra m) l0 (ren_cms l1) = cms_eq New o ax0 ax1 m l0 l1.
+  Proof.
+    intro Hfix. unfold cms_eq. unfold ren_cms at 1. rewrite map_length, swap_ren1.
+    destruct (negb (Nat.eqb (length l0) (length l1))); auto. now apply cms_zip_eq_ren.
+  Qed.
+
+  (* the construct keys a coordinate reference names *)
+  Definition refs (c : cref) : list string :=
+    r_coords c ++ flat_map (fun tk : string * option string => match snd tk with Some k => [k] | None => [] end) (r_cdas c).
+
+  Lemma k1to0_ren ps k :
+    k1to0 (ren_ps ps) (rk k) = match assoc k (map swap ps) with Some k0 => k0 | None => rk k end.
+  Proof.
+    unfold k1to0, ren_ps.
+    replace (map swap (ren2 rk ps)) with (ren1 rk (map swap ps))
+      by (unfold ren1, ren2; rewrite !map_map; reflexivity).
+    now rewrite (assoc_ren1 rk rk_inj).
+  Qed.
+
+  Lemma cref_eq_ren o x y : cref_eq o x (ren_cr y) = cref_eq o x y.
+  Proof.
+    unfold cref_eq, ren_cr; cbn [r_coords r_cparams r_cdas r_dparams]. rewrite map_length.
+    rewrite (dict_eq_map_r _ (fun u w : option string => Bool.eqb (is_none u) (is_none w)) (option_map rk)); auto.
+    intros u [w|]; reflexivity.
+  Qed.
+
+  Lemma cref_match_ren o ps r0 r1 :
+    (forall k, In k (refs (snd r1)) -> assoc k (map swap ps) = None -> rk k = k) ->
+    cref_match o (ren_ps ps) r0 (ro (fst r1), ren_cr (snd r1)) = cref_match o ps r0 r1.
+  Proof.
+    intro Hc. unfold cref_match. cbn [snd]. rewrite cref_eq_ren.
+    assert (K : forall k, In k (refs (snd r1)) -> k1to0 (ren_ps ps) (rk k) = k1to0 ps k).
+    { intros k Hk. rewrite k1to0_ren. unfold k1to0. destruct (assoc k (map swap ps)) eqn:E; auto. }
+    assert (E1 : map (k1to0 (ren_ps ps)) (r_coords (ren_cr (snd r1))) = map (k1to0 ps) (r_coords (snd r1))).
+    { unfold ren_cr; cbn [r_coords]. rewrite map_map. apply map_ext_in. intros k Hk. apply K.
+      unfold refs. apply in_or_app. now left. }
+    assert (E2 : map (fun tk : string * option string => (fst tk, option_map (k1to0 (ren_ps ps)) (snd tk)))
+                     (r_cdas (ren_cr (snd r1)))
+                 = map (fun tk : string * option string => (fst tk, option_map (k1to0 ps) (snd tk))) (r_cdas (snd r1))).
+    { unfold ren_cr; cbn [r_cdas]. rewrite map_map. apply map_ext_in. intros [t [k|]] Hk; cbn [fst snd option_map]; auto.
+      rewrite K; auto. unfold refs. apply in_or_app. right. apply in_flat_map. exists (t, Some k). split; auto.
+      simpl. now left. }
+    rewrite E1, E2. reflexivity.
+  Qed.
+
+  Lemma crs_eq_ren o ps l0 l1 :
+    (forall kr k, In kr l1 -> In k (refs (snd kr)) -> assoc k (map swap ps) = None -> rk k = k) ->
+    crs_eq o (ren_ps ps) l0 (ren_crs l1) = crs_eq o ps l0 l1.
+  Proof.
+    intro Hc. unfold crs_eq, ren_crs. rewrite map_length.
+    destruct (negb (Nat.eqb (length l0) (length l1))); auto.
+    rewrite greedyR_map_r. rewrite (greedyR_ext_in _ (cref_match o ps)).
+    - destruct (greedyR (cref_match o ps) l0 l1) as [[qs|]|e]; reflexivity.
+    - intros a b Hb. apply cref_match_ren. intros k Hk. now apply (Hc b).
+  Qed.
+
+  Lemma sizes_eq_ren v x ax : sizes_eq v x (ren1 ra ax) = sizes_eq v x ax.
+  Proof.
+    unfold sizes_eq.
+    assert (E : existsb (fun kv : string * option Z => is_none (snd kv)) (ren1 ra ax)
+                = existsb (fun kv : string * option Z => is_none (snd kv)) ax).
+    { induction ax as [|[k n] r IH]; simpl; auto. now rewrite IH. }
+    rewrite E. unfold ren1. rewrite map_map. reflexivity.
+  Qed.
+
+  Definition cms_names_fixed (y : field) : Prop :=
+    forall kc x, In kc (f_cms y) -> In x (m_axes (snd kc)) -> mem x (keys (f_axes y)) = false -> ra x = x.
+
+  Lemma constructs_eq_ren o x y :
+    cms_names_fixed y ->
+    (forall aps ps kr k,
+        match_groups New (nested o) (f_cons y) (groups (f_cons x)) (groups (f_cons y)) = Ok (Some (aps, ps)) ->
+        length (groups (f_cons x)) = length (groups (f_cons y)) ->
+        In kr (f_crs y) -> In k (refs (snd kr)) -> assoc k (map swap ps) = None -> rk k = k) ->
+    constructs_eq New o x (ren_field y) = constructs_eq New o x y.
+  Proof.
+    intros Hcm Hcr. unfold constructs_eq. cbn [ren_field f_axes f_cons f_daxes f_cms f_crs].
+    rewrite sizes_eq_ren. destruct (sizes_eq New (f_axes x) (f_axes y)) as [[|]|e]; cbn [andR]; auto.
+    rewrite groups_ren, map_length.
+    destruct (Nat.eqb (length (groups (f_cons x))) (length (groups (f_cons y)))) eqn:L; cbn [negb]; auto.
+    rewrite (match_groups_ren (nested o) (f_cons y)).
+    destruct (match_groups New (nested o) (f_cons y) (groups (f_cons x)) (groups (f_cons y)))
+      as [[[aps ps]|]|e] eqn:G; cbn [omap ren_mg fst snd]; auto.
+    cbn [fixC New].
+    set (aps' := match f_daxes x, f_daxes y with Some d0, Some d1 => aps ++ [(d0, d1)] | _, _ => aps end).
+    assert (A : match f_daxes x, option_map (map ra) (f_daxes y) with
+                | Some d0, Some d1 => ren_aps aps ++ [(d0, d1)] | _, _ => ren_aps aps end = ren_aps aps').
+    { subst aps'. destruct (f_daxes x), (f_daxes y); cbn [option_map]; auto. unfold ren_aps. now rewrite map_app. }
+    rewrite A. pose proof (map_all_axes_ren aps' [] []) as M. cbn [ren1 ren2 map] in M. rewrite M.
+    destruct (map_all_axes New [] [] aps') as [[[m01 m10]|]|e]; cbn [omap ren_maps fst snd]; auto.
+    rewrite cms_eq_ren by exact Hcm. rewrite crs_eq_ren; [reflexivity|].
+    intros kr k. eapply Hcr; eauto. now apply Nat.eqb_eq.
+  Qed.
+End Rename.
+
+(* ---- every construct key of the other field takes part in the key map ---- *)
+Lemma find_remove_perm {B} (p : B -> result bool) l : forall y r,
+  find_remove p l = Ok (Some (y, r)) -> Permutation l (y :: r).
+Proof.
+  induction l as [|z l IH]; simpl; intros y r; [discriminate|].
+  destruct (p z) as [[|]|e]; try discriminate.
+  - intro H; inversion H; subst. apply Permutation_refl.
+  - destruct (find_remove p l) as [[[y' r']|]|e]; try discriminate. intro H; inversion H; subst.
+    rewrite (IH y r' eq_refl). apply perm_swap.
+Qed.
+
+Lemma greedyR_snd {A B} (eq : A -> B -> result bool) xs : forall ys ps,
+  greedyR eq xs ys = Ok (Some ps) -> Permutation (map snd ps) ys.
+Proof.
+  induction xs as [|x xs IH]; intros ys ps; simpl.
+  - destruct ys; intro H; inversion H; subst; constructor.
+  - destruct (find_remove (eq x) ys) as [[[y ys']|]|e] eqn:F; try discriminate.
+    destruct (greedyR eq xs ys') as [[qs|]|e] eqn:G; try discriminate.
+    intro H; inversion H; subst. simpl. rewrite (find_remove_perm _ _ _ _ F). constructor. now apply IH.
+Qed.
+
+Lemma cls_eqb_refl c : cls_eqb c c = true.
+Proof. destruct c; reflexivity. Qed.
+
+Lemma match_types_cover o other tys i0 i1 : forall ps,
+  match_types New o other tys i0 i1 = Ok (Some ps) ->
+  forall kc, In kc i1 -> In (c_cls (snd kc)) tys -> In (fst kc) (map snd ps).
+Proof.
+  induction tys as [|t rest IH]; intros ps; simpl; [intros _ kc _ []|].
+  destruct (negb (Nat.eqb (length (role t i0)) (length (role t i1)))); [discriminate|].
+  destruct (greedyR (fun a b : string * cons => cons_body_eq New o (snd a) (snd b)) (role t i0) (role t i1))
+    as [[qs|]|e] eqn:G; try discriminate.
+  destruct (match_types New o other rest i0 i1) as [[rs|]|e] eqn:M; try discriminate.
+  intro H; inversion H; subst; clear H. intros kc Hk [Ht|Ht]; rewrite map_app; apply in_or_app.
+  - left. apply greedyR_snd in G.
+    assert (R : In kc (role t i1)).
+    { unfold role. apply filter_In. split; auto. rewrite <- Ht. apply cls_eqb_refl. }
+    apply (Permutation_in _ (Permutation_sym G)) in R. apply in_map_iff in R. destruct R as [ab [E Hab]].
+    apply in_map_iff. exists (fst (fst ab), fst (snd ab)). split; [simpl; now rewrite E|].
+    apply in_map_iff. exists ab. auto.
+  - right. eapply IH; eauto.
+Qed.
+
+Lemma all_classes c : In c type_order.
+Proof. destruct c; simpl; tauto. Qed.
+
+Lemma find_group_cover o other g0 gs1 : forall g1 r ps,
+  find_group New o other g0 gs1 = Ok (Some (g1, r, ps)) ->
+  Permutation gs1 (g1 :: r) /\ forall kc, In kc (snd g1) -> In (fst kc) (map snd ps).
+Proof.
+  induction gs1 as [|g r0 IH]; intros g1 r ps; cbn [find_group]; [discriminate|].
+  assert (C : match find_group New o other g0 r0 with
+              | Ok (Some (g', r', ps')) => Ok (Some (g', g :: r', ps')) | x => x end = Ok (Some (g1, r, ps)) ->
+              Permutation (g :: r0) (g1 :: r) /\ forall kc, In kc (snd g1) -> In (fst kc) (map snd ps)).
+  { destruct (find_group New o other g0 r0) as [[[[g' r'] ps']|]|e]; try discriminate.
+    intro H; inversion H; subst. destruct (IH _ _ _ eq_refl) as [P Q]. split; auto.
+    rewrite P. apply perm_swap. }
+  destruct (negb (Nat.eqb (length (fst g0)) (length (fst g)))); auto.
+  destruct (match_types New o other type_order (snd g0) (snd g)) as [[qs|]|e] eqn:M; try discriminate; auto.
+  intro H; inversion H; subst. split; [apply Permutation_refl|].
+  intros kc Hk. eapply match_types_cover; eauto. apply all_classes.
+Qed.
+
+Lemma match_groups_cover o other gs0 : forall gs1 aps ps,
+  match_groups New o other gs0 gs1 = Ok (Some (aps, ps)) -> length gs0 = length gs1 ->
+  forall g kc, In g gs1 -> In kc (snd g) -> In (fst kc) (map snd ps).
+Proof.
+  induction gs0 as [|g0 r0 IH]; intros gs1 aps ps; cbn [match_groups].
+  - intros _ L g kc Hg. destruct gs1; [destruct Hg|discriminate].
+  - destruct (find_group New o other g0 gs1) as [[[[g1 gs1'] ps1]|]|e] eqn:F; try discriminate.
+    destruct (match_groups New o other r0 gs1') as [[[aps' qs]|]|e] eqn:G; try discriminate.
+    intro H; inversion H; subst; clear H. intros L g kc Hg Hk.
+    destruct (find_group_cover _ _ _ _ _ _ _ F) as [P Q].
+    rewrite map_app. apply in_or_app.
+    apply (Permutation_in _ P) in Hg. destruct Hg as [<-|Hg].
+    + left. now apply Q.
+    + right. eapply IH; eauto. apply Permutation_length in P. simpl in *. lia.
+Qed.
+
+Definition has (gs : list group) (k : string) (c : cons) : Prop :=
+  exists g, In g gs /\ In (k, c) (snd g).
+
+Lemma add_group_has_new k ax c gs : has (add_group k ax c gs) k c.
+Proof.
+  induction gs as [|[ax' items] r IH]; simpl.
+  - exists (ax, [(k, c)]). split; simpl; auto.
+  - destruct (axes_eqb ax ax').
+    + exists (ax', items ++ [(k, c)]). split; simpl; auto. apply in_or_app. right. now left.
+    + destruct IH as [g [G1 G2]]. exists g. split; auto. now right.
+Qed.
+
+Lemma add_group_has_old k ax c gs k' c' : has gs k' c' -> has (add_group k ax c gs) k' c'.
+Proof.
+  induction gs as [|[ax' items] r IH]; simpl; intros [g [G1 G2]]; [destruct G1|].
+  destruct (axes_eqb ax ax').
+  - destruct G1 as [<-|G1].
+    + exists (ax', items ++ [(k, c)]). split; simpl; auto. apply in_or_app. now left.
+    + exists g. split; auto. now right.
+  - destruct G1 as [<-|G1].
+    + exists (ax', items). split; simpl; auto.
+    + destruct IH as [g' [H1 H2]]; [exists g; auto|]. exists g'. split; auto. now right.
+Qed.
+
+Lemma groups_complete cs : forall kc : kcons, In kc cs -> has (groups cs) (fst kc) (snd (snd kc)).
+Proof.
+  unfold groups.
+  assert (G : forall (cs : list kcons) gs,
+            (forall k c, has gs k c ->
+               has (fold_left (fun gs (kc : kcons) => add_group (fst kc) (fst (snd kc)) (snd (snd kc)) gs) cs gs) k c) /\
+            (forall kc : kcons, In kc cs ->
+               has (fold_left (fun gs (kc : kcons) => add_group (fst kc) (fst (snd kc)) (snd (snd kc)) gs) cs gs)
+                   (fst kc) (snd (snd kc)))).
+  { clear. induction cs as [|kc0 r IH]; intro gs; simpl.
+    - split; auto. intros kc [].
+    - destruct (IH (add_group (fst kc0) (fst (snd kc0)) (snd (snd kc0)) gs)) as [I1 I2]. split.
+      + intros k c H. apply I1. now apply add_group_has_old.
+      + intros kc [<-|H]; auto. apply I1. apply add_group_has_new. }
+  intros kc H. now apply (proj2 (G cs [])).
+Qed.
+
+Lemma in_snd_assoc_swap (ps : kpairs) k : In k (map snd ps) -> assoc k (map swap ps) <> None.
+Proof.
+  intro H. assert (M : mem k (keys (map swap ps)) = true).
+  { apply mem_in. unfold keys. rewrite map_map. exact H. }
+  rewrite mem_keys_assoc in M. destruct (assoc k (map swap ps)); [discriminate|discriminate].
+Qed.
+
+(* a coordinate reference names constructs of its own field only - or keys that are not renamed *)
+Definition crs_refs_ok (rk : string -> string) (y : field) : Prop :=
+  forall kr k, In kr (f_crs y) -> In k (refs (snd kr)) -> In k (keys (f_cons y)) \/ rk k = k.
+
+Theorem field_key_blind : forall ra rk ro o x y,
+  inj ra -> inj rk -> cms_names_fixed ra y -> crs_refs_ok rk y ->
+  field_eq New o x (ren_field ra rk ro y) = field_eq New o x y.
+Proof.
+  intros ra rk ro o x y Ia Ik Hcm Hcr. unfold field_eq.
+  change (f_isfield (ren_field ra rk ro y)) with (f_isfield y).
+  change (f_props (ren_field ra rk ro y)) with (f_props y).
+  change (f_data (ren_field ra rk ro y)) with (f_data y).
+  rewrite (constructs_eq_ren ra rk ro Ia Ik o x y Hcm); auto.
+  intros aps ps kr k G L Hkr Hk A.
+  destruct (Hcr kr k Hkr Hk) as [Hin|]; auto. exfalso.
+  unfold keys in Hin. apply in_map_iff in Hin. destruct Hin as [kc [E Hkc]].
+  destruct (groups_complete (f_cons y) kc Hkc) as [g [G1 G2]].
+  apply (in_snd_assoc_swap ps k); auto.
+  rewrite <- E. exact (match_groups_cover _ _ _ _ _ _ G L g (fst kc, snd (snd kc)) G1 G2).
+Qed.
+
+Corollary field_equals_renamed_copy : forall ra rk ro o x,
+  opts_ok o -> wf_field x -> inj ra -> inj rk -> cms_names_fixed ra x -> crs_refs_ok rk x ->
+  field_eq New o x (ren_field ra rk ro x) = Some (Ok true).
+Proof.
+  intros. rewrite field_key_blind; auto. now apply field_copy_equal.
+Qed.
+
+(* ====================================================================== *)
+(* I. the order in which the domain axes were inserted plays no part        *)
+(* ====================================================================== *)
+Definition set_axes (y : field) (ax : list (string * option Z)) : field :=
+  mkF (f_isfield y) (f_props y) (f_data y) (f_daxes y) ax (f_cons y) (f_cms y) (f_crs y).
+
+Lemma insert_comm x y l : insert x (insert y l) = insert y (insert x l).
+Proof.
+  induction l as [|z l IH]; simpl.
+  - destruct (Z.leb_spec x y), (Z.leb_spec y x); simpl;
+      repeat match goal with |- context [(?a <=? ?b)] => destruct (Z.leb_spec a b) end;
+      try reflexivity; try lia. assert (x = y) by lia. now subst.
+  - repeat (match goal with |- context [(?a <=? ?b)] => destruct (Z.leb_spec a b) end; simpl);
+      try reflexivity; try lia; try (assert (x = y) by lia; now subst). now rewrite IH.
+Qed.
+
+Lemma sortZ_perm l l' : Permutation l l' -> sortZ l = sortZ l'.
+Proof.
+  unfold sortZ. induction 1; simpl; auto.
+  - now rewrite IHPermutation.
+  - apply insert_comm.
+  - congruence.
+Qed.
+
+Lemma sizes_eq_perm x ax ax' : Permutation ax ax' -> sizes_eq New x ax' = sizes_eq New x ax.
+Proof.
+  intro P. unfold sizes_eq. cbn [fixE New negb andb]. f_equal. f_equal.
+  apply sortZ_perm. apply Permutation_map. now apply Permutation_sym.
+Qed.
+
+Lemma mem_perm {V} (ax ax' : list (string * V)) k : Permutation ax ax' -> mem k (keys ax) = mem k (keys ax').
+Proof.
+  intro P. assert (Q : Permutation (keys ax) (keys ax')) by (unfold keys; now apply Permutation_map).
+  destruct (mem k (keys ax)) eqn:A, (mem k (keys ax')) eqn:B; auto.
+  - apply mem_in in A. apply (Permutation_in _ Q) in A. apply mem_in in A. congruence.
+  - apply mem_in in B. apply (Permutation_in _ (Permutation_sym Q)) in B. apply mem_in in B. congruence.
+Qed.
+
+Lemma assoc_In {V} k (l : list (string * V)) v : assoc k l = Some v -> In (k, v) l.
+Proof.
+  induction l as [|[k' v'] r IH]; simpl; [discriminate|].
+  destruct (String.eqb k k') eqn:E.
+  - intro H; inversion H; subst. apply String.eqb_eq in E. subst. now left.
+  - intro H. right. now apply IH.
+Qed.
+
+Lemma assoc_perm {V} (ax ax' : list (string * V)) k :
+  NoDup (keys ax) -> Permutation ax ax' -> assoc k ax = assoc k ax'.
+Proof.
+  intros N P.
+  assert (N' : NoDup (keys ax')).
+  { eapply Permutation_NoDup; [|exact N]. unfold keys. now apply Permutation_map. }
+  destruct (assoc k ax) as [v|] eqn:A.
+  - apply assoc_In in A. apply (Permutation_in _ P) in A. symmetry. now apply assoc_nodup.
+  - destruct (assoc k ax') as [v|] eqn:B; auto. apply assoc_In in B.
+    apply (Permutation_in _ (Permutation_sym P)) in B. rewrite (assoc_nodup ax k v N B) in A. discriminate.
+Qed.
+
+Section AxesExt.
+  Variables ax0 ax1 ax1' : list (string * option Z).
+  Hypothesis Hm : forall k, mem k (keys ax1') = mem k (keys ax1).
+  Hypothesis Hs : forall k, axsize ax1' k = axsize ax1 k.
+
+  Lemma scan_axes1_ext orig axis0 fuel : forall a m i axes1 indices,
+    scan_axes1 New ax0 ax1' a m orig axis0 fuel i axes1 indices
+    = scan_axes1 New ax0 ax1 a m orig axis0 fuel i axes1 indices.
+  Proof.
+    induction fuel as [|fuel IH]; intros; cbn [scan_axes1]; auto.
+    destruct (nth_error axes1 i); auto. rewrite Hm, Hs, !IH. reflexivity.
+  Qed.
+
+  Lemma scan_axes0_ext orig axes0 : forall a m axes1 indices,
+    scan_axes0 New ax0 ax1' a m orig axes0 axes1 indices = scan_axes0 New ax0 ax1 a m orig axes0 axes1 indices.
+  Proof.
+    induction axes0 as [|axis0 r IH]; intros; cbn [scan_axes0]; auto.
+    rewrite scan_axes1_ext. destruct (scan_axes1 New ax0 ax1 a m orig axis0 (S (length axes1)) 0 axes1 indices); auto.
+  Qed.
+
+  Lemma cms_zip_eq_ext o l0 : forall l1 a m,
+    cms_zip_eq New o ax0 ax1' a m l0 l1 = cms_zip_eq New o ax0 ax1 a m l0 l1.
+  Proof.
+    induction l0 as [|[k0 c0] r0 IH]; intros l1 a m; cbn [cms_zip_eq]; auto.
+    destruct l1 as [|[k1 c1] r1]; auto. unfold one_cm_eq. rewrite scan_axes0_ext.
+    destruct (negb (Nat.eqb (length (m_axes c0)) (length (m_axes c1)))); auto.
+    destruct (scan_axes0 New ax0 ax1 a m (m_axes c1) (m_axes c0) (m_axes c1) []) as [[[indices a'] m']|]; auto.
+    destruct (negb (Nat.eqb (length (m_axes c1)) (length indices))); auto.
+    destruct (sorted_intervals New c1 indices) as [iv|e]; cbn [rbind]; auto.
+    destruct (cm_eq o c0 (mkM (m_axes c0) (m_method c1) (m_quals c1) iv)); auto.
+  Qed.
+End AxesExt.
+
+Theorem field_axes_order_blind : forall o x y ax',
+  NoDup (keys (f_axes y)) -> Permutation (f_axes y) ax' ->
+  field_eq New o x (set_axes y ax') = field_eq New o x y.
+Proof.
+  intros o x y ax' N P. unfold field_eq, constructs_eq, set_axes.
+  cbn [f_isfield f_props f_data f_daxes f_axes f_cons f_cms f_crs].
+  rewrite (sizes_eq_perm (f_axes x) (f_axes y) ax' P).
+  destruct (negb (Bool.eqb (f_isfield x) (f_isfield y))); auto. f_equal. f_equal. f_equal.
+  destruct (negb (Nat.eqb (length (groups (f_cons x))) (length (groups (f_cons y))))); auto.
+  destruct (match_groups New (nested o) (f_cons y) (groups (f_cons x)) (groups (f_cons y))) as [[[aps ps]|]|e]; auto.
+  match goal with |- match map_all_axes New [] [] ?a with _ => _ end = _ =>
+    destruct (map_all_axes New [] [] a) as [[[m01 m10]|]|e] end; auto.
+  f_equal. unfold cms_eq. destruct (negb (Nat.eqb (length (f_cms x)) (length (f_cms y)))); auto.
+  apply cms_zip_eq_ext.
+  - intro k. symmetry. now apply mem_perm.
+  - intro k. unfold axsize. now rewrite (assoc_perm (f_axes y) ax' k N P).
+Qed.
+
+(* ====================================================================== *)
 (* witnesses and non-vacuity                                               *)
 (* ====================================================================== *)
 From CfdmV Require Import C05.Refuted.
 
-Lemma total_unguarded_refuted : exists o x y, top_eq New o x y = Some (Err IndexErr).
-Proof. eexists _, _, _. exact total_unguarded_witness. Qed.
+Lemma mid_short_intervals_refuted : exists o x,
+  top_eq Mid o x x = Some (Err IndexErr) /\ top_eq New o x x = Some (Ok true).
+Proof. eexists _, _. exact mid_short_intervals_witness. Qed.
 
-Lemma key_blind_unspanned_axis_refuted : exists o x y y',
+Lemma mid_surplus_intervals_refuted : exists o x,
+  top_eq Mid o x x = Some (Ok false) /\ top_eq New o x x = Some (Ok true).
+Proof. eexists _, _. exact mid_surplus_intervals_witness. Qed.
+
+Lemma mid_key_blind_unspanned_axis_refuted : exists o x y y',
   (* y' is y with one domain axis key renamed throughout *)
-  top_eq New o x y = Some (Ok true) /\ top_eq New o x y' = Some (Ok false).
-Proof. eexists _, _, _, _. exact key_blind_unspanned_axis_witness. Qed.
+  top_eq Mid o x y = Some (Ok true) /\ top_eq Mid o x y' = Some (Ok false) /\
+  top_eq New o x y' = Some (Ok true).
+Proof. eexists _, _, _, _. exact mid_key_blind_unspanned_axis_witness. Qed.
 
 Lemma order_blind_twin_axes_refuted : exists o x y y',
   (* y' is y with its two coordinate constructs inserted in the other order *)
@@ -1130,16 +1825,38 @@ Proof. eexists _, _, _, _. exact order_blind_twin_axes_witness. Qed.
 Lemma o0_ok : opts_ok o0.
 Proof. split; apply default_tol_ok. Qed.
 
+(* a renaming that is injective: prefix every key *)
+Definition pre (s : string) : string := String "r"%char s.
+Lemma pre_inj : inj pre.
+Proof. intros a b H. now inversion H. Qed.
+
+Definition base_cm : field :=
+  fld [a0; a1] (base_axes ++ [("domainaxis2"%string, Some 1)]) base_cons
+      [("cellmethod0"%string, cm ["domainaxis2"%string]); ("cellmethod1"%string, cm [a0; a1])].
+
+Lemma base_cm_wf : wf_field base_cm.
+Proof.
+  unfold wf_field, wf_cons, wf_pd, wf_opd, wf_cm, wf_cr; simpl.
+  splits; repeat constructor; simpl; intuition discriminate.
+Qed.
+
 Lemma examples_nonvacuous :
-  opts_ok o0 /\ wf_cons lat /\ wf_total (TField base) /\
+  opts_ok o0 /\ wf_cons lat /\ wf_field base_cm /\
   exact (mkO (Some (0, 1)) (Some (0, 1)) false false IPNone true false) /\
+  inj pre /\ cms_names_fixed pre base_cm /\ crs_refs_ok pre base_cm /\
   cons_eq New o0 lat lat = Some (Ok true) /\
-  top_eq New o0 (TField base) (TField base) = Some (Ok true) /\
-  constructs_eq New o0 base base = Ok true.
+  top_eq New o0 (TField base_cm) (TField base_cm) = Some (Ok true) /\
+  top_eq New o0 (TField base_cm) (TField (ren_field pre pre pre base_cm)) = Some (Ok true).
 Proof.
   splits; try (vm_compute; reflexivity).
   - exact o0_ok.
   - unfold wf_cons, wf_pd, wf_opd; simpl. splits; auto. repeat constructor; simpl; intuition discriminate.
-  - constructor.
+  - exact base_cm_wf.
   - split; split; simpl; lia.
+  - exact pre_inj.
+  - intros kc x Hk Hx M. simpl in Hk.
+    destruct Hk as [<-|[<-|[]]]; simpl in Hx;
+      repeat match goal with H : _ \/ _ |- _ => destruct H as [<-|H] end; try contradiction;
+      vm_compute in M; discriminate.
+  - intros kr k [].
 Qed.
